@@ -406,7 +406,10 @@ def gen_scenario(rng, sharded: bool = False) -> dict:
             lay = layout(scn, "/nonexistent")
             if lay:
                 victim = rng.choice(lay)[0]
-                scn["files"][victim] = {"kind": "file", "bytes": [9, 9, 9, 9], "mode": 0o600}
+                if victim not in scn["files"]:
+                    if "/" in victim and os.path.dirname(victim) not in scn["dirs"]:
+                        scn["dirs"].append(os.path.dirname(victim))
+                    scn["files"][victim] = {"kind": "file", "bytes": [9, 9, 9, 9], "mode": 0o600}
     return scn
 
 
@@ -572,16 +575,7 @@ def exercise_parallel(ck, scn: dict, root: str) -> list[dict]:
         b2, c2, out2 = S.run_save(scn, root, "fault", k)
         a2 = snapshot(root)
         ck.count()
-        failed_kind = None
-        if any(e[0] == "fail" for e in c2.log):
-            i = [e[0] for e in c2.log].index("fail")
-            failed_kind = "unknown"
-            # the kind is the effect that was being attempted; cleanup faults are the ones after a replace/in finally
-            # (recognised by what follows: nothing but cleanup calls).  Conservative: treat as cleanup fault only when the
-            # log already contains a remove/rmdir before the failure or the replace happened.
-            prior = [e[0] for e in c2.log[:i]]
-            if "replace" in prior or "remove" in prior:
-                failed_kind = "remove"
+        failed_kind = next((e[1] for e in c2.log if e[0] == "fail"), None)
         ck.hist("parallel", "fault:" + ("raise" if out2[0] != "ok" else "ok"))
         bad = oracle(scn, root, b2.before, a2, "ok" if out2[0] == "ok" else "raise", failed_kind, new_bytes,
                      tens_before, b2)
@@ -698,8 +692,8 @@ def replay_case(scn: dict, mode: str, index, root: str) -> list[str]:
     if mode == "fault":
         if index >= ctl.n:
             return []
-        kind = kinds_at(ctl, index) if scn.get("max_workers") in (None, 1) else None
         b2, c2, out2 = S.run_save(scn, root, "fault", index)
+        kind = next((e[1] for e in c2.log if e[0] == "fail"), None)
         return oracle(scn, root, b2.before, snapshot(root), "ok" if out2[0] == "ok" else "raise", kind, new_bytes,
                       tens_before, b2)
     _, before3 = S.run_killed(scn, root, index)
